@@ -1,4 +1,5 @@
 import EaselModel.Msa.LemmasPk2
+import EaselModel.Msa.LemmasPkS
 /-! Lemmas: the main loop of `esl_ct2wuss` on an ARBITRARY symmetric pair table; its output is a class-nested labelling,
     hence (LemmasClass) `esl_wuss2ct` reads the table back: the pseudoknotted round trip. -/
 namespace EaselModel.Msa
@@ -166,22 +167,23 @@ theorem pkOfAbove_sorted (cct : List Nat) : ∀ (above : List Int),
 
 /-- a right end `j` of an arbitrary table: the partner is on the stack, the pop loop finds it and moves the crossing
     left ends to `auxpk`; after the lettering batch the invariant holds for `j+1` -/
-theorem ginv_right_end (n : Nat) (ct : List Nat) (hct : CtOk n ct) {j : Nat} {pda : List Int} {st : C2W} {cct : List Nat}
-    {rb : List Int} (inv : GInv n ct j pda st cct rb) (hj1 : 1 ≤ j) (hjn : j ≤ n) (h0 : cct.getD j 0 ≠ 0)
+theorem ginv_right_end (simple : Bool) (n : Nat) (ct : List Nat) (hct : CtOk n ct) {j : Nat} {pda : List Int} {st : C2W} {cct : List Nat}
+    {rb : List Int} (inv : GInv n ct j pda st cct rb) (hnm : simple = true → ∀ a ∈ pda, 0 ≤ a)
+    (hj1 : 1 ≤ j) (hjn : j ≤ n) (h0 : cct.getD j 0 ≠ 0)
     (hleft : ¬ j < cct.getD j 0) :
     ∃ above below, pda = above ++ ((cct.getD j 0 : Nat) : Int) :: below ∧
       (∀ a ∈ above, (a < 0 ∧ -4 ≤ a) ∨ (0 ≤ a ∧ 1 ≤ a.toNat ∧ a.toNat ≤ n ∧ cct.getD a.toNat 0 ≠ j)) ∧
       (∀ a ∈ (pkOfAbove cct above).reverse, cct.getD j 0 < a ∧ a < j ∧ cct.getD a 0 ≠ 0 ∧ j < ct.getD a 0) ∧
       ((pkOfAbove cct above).reverse).Pairwise (· < ·) ∧
-      ∀ res, popLoop false ct.toArray j pda 0 (-1) st = .ok res →
+      ∀ res, popLoop simple ct.toArray j pda 0 (-1) st = .ok res →
         res.1 = true ∧ res.2.2.cct = cct.toArray ∧ res.2.2.auxpk = (pkOfAbove cct above).reverse ∧
         (res.2.2.reached = st.reached + 1 ∧ res.2.2.ss.size = n ∧ res.2.2.rb = st.rb ∧
           ∀ p, 1 ≤ p → p < ct.getD p 0 → cct.getD p 0 = 0 → ssAt res.2.2.ss (p-1) = ssAt st.ss (p-1)) ∧
-        ∃ mf', res.2.1 = mf' :: below ∧
+        ∃ hd, res.2.1 = hd ++ below ∧ (∀ a ∈ hd, a < 0 ∧ -4 ≤ a) ∧ (simple = true → hd = []) ∧
           ∀ st2, ((pkOfAbove cct above).reverse = [] ∧ st2 = res.2.2) ∨
                  pkLoop ct.toArray j (pkOfAbove cct above).reverse ((cct.getD j 0 : Nat) : Int)
                    (((cct.getD j 0 : Nat) : Int) + 1) (-1) res.2.2 = .ok st2 →
-            ∃ cct' rb', GInv n ct (j+1) (mf' :: below) st2 cct' rb' := by
+            ∃ cct' rb', GInv n ct (j+1) (hd ++ below) st2 cct' rb' := by
   have hsj := cct_sym hct inv.cok j h0
   have hi : 1 ≤ cct.getD j 0 ∧ cct.getD j 0 < j := ⟨hsj.2.2.2.2.1, by omega⟩
   have hij : cct.getD (cct.getD j 0) 0 = j := hsj.2.1
@@ -237,10 +239,36 @@ theorem ginv_right_end (n : Nat) (ct : List Nat) (hct : CtOk n ct) {j : Nat} {pd
     have := cct_sym hct inv.cok (cct.getD j 0) hi0ne
     rw [← this.1]; exact hi0ne
   have hctj : ct.getD j 0 ≠ 0 := by rw [← hsj.1]; exact h0
-  have sp := popLoopG n ct cct hct.1 inv.cok.len j (cct.getD j 0) below ⟨hj1, hjn⟩ hi hij hcti hctj above 0 (-1) st _
-    habove (by omega) (by omega) inv.hcct inv.sssize (by rw [inv.noaux]; simp) hres
-  simp only at sp
-  obtain ⟨hfound, ⟨mf', hpda1, hmf1, hmf2⟩, hcct1, hpk1, haux1, hsz1, hrb1, hbr, hsame, hunp, hreach1⟩ := sp
+  have sp : found = true ∧ (∃ hd, pda1 = hd ++ below ∧ (∀ a ∈ hd, a < 0 ∧ -4 ≤ a) ∧ (simple = true → hd = [])) ∧
+      st1.cct = cct.toArray ∧ st1.auxpk = (pkOfAbove cct above).reverse ++ st.auxpk ∧ st1.auxss = [] ∧
+      st1.ss.size = n ∧ st1.rb = st.rb ∧
+      (isOpenBr (ssAt st1.ss (cct.getD j 0 - 1)) = true ∧ ssAt st1.ss (j-1) = closerOf (ssAt st1.ss (cct.getD j 0 - 1))) ∧
+      (∀ q, q ≠ cct.getD j 0 - 1 → q ≠ j - 1 → (ct.getD (q+1) 0 ≠ 0 ∨ n ≤ q) → ssAt st1.ss q = ssAt st.ss q) ∧
+      (∀ q, q < n → ct.getD (q+1) 0 = 0 → isUnpairedSym (ssAt st.ss q) = true → isUnpairedSym (ssAt st1.ss q) = true) ∧
+      st1.reached = st.reached + 1 := by
+    cases simple with
+    | false =>
+      have sp := popLoopG n ct cct hct.1 inv.cok.len j (cct.getD j 0) below ⟨hj1, hjn⟩ hi hij hcti hctj above 0 (-1) st _
+        habove (by omega) (by omega) inv.hcct inv.sssize (by rw [inv.noaux]; simp) hres
+      simp only at sp
+      obtain ⟨hfound, ⟨mf', hpda1, hmf1, hmf2⟩, r⟩ := sp
+      refine ⟨hfound, ⟨[mf'], by rw [hpda1]; rfl, ?_, fun h => by cases h⟩, r⟩
+      intro a ha
+      simp only [List.mem_singleton] at ha
+      subst ha; exact ⟨by omega, hmf1⟩
+    | true =>
+      have habove' : ∀ a ∈ above, 0 ≤ a ∧ 1 ≤ a.toNat ∧ a.toNat ≤ n ∧ cct.getD a.toNat 0 ≠ j := by
+        intro a ha
+        have h0a := hnm rfl a (by rw [hsplit]; simp [ha])
+        rcases habove a ha with h1 | h1
+        · omega
+        · exact h1
+      have sp := popLoopGS n ct cct hct.1 inv.cok.len j (cct.getD j 0) below ⟨hj1, hjn⟩ hi hij hcti hctj above 0 (-1) st _
+        habove' inv.hcct inv.sssize hres
+      simp only at sp
+      obtain ⟨hfound, hpda1, hc, hp, ha, r⟩ := sp
+      exact ⟨hfound, ⟨[], by rw [hpda1]; rfl, fun a ha => by simp at ha, fun _ => rfl⟩, hc, hp, by rw [ha, inv.noaux], r⟩
+  obtain ⟨hfound, ⟨hd, hpda1, hhd, hhds⟩, hcct1, hpk1, haux1, hsz1, hrb1, hbr, hsame, hunp, hreach1⟩ := sp
   rw [inv.nopk, List.append_nil] at hpk1
   -- the letter invariant survives the bracket / unpaired-symbol writes of the pop loop
   have hpkcells : ∀ p, 1 ≤ p → p < ct.getD p 0 → cct.getD p 0 = 0 →
@@ -264,7 +292,7 @@ theorem ginv_right_end (n : Nat) (ct : List Nat) (hct : CtOk n ct) {j : Nat} {pd
                                        rw [this]; omega)
     · apply hsame <;> first | omega | (left; have : ct.getD p 0 - 1 + 1 = ct.getD p 0 := by omega
                                        rw [this, hpp.2.2.2.2.1]; omega)
-  refine ⟨hfound, hcct1, hpk1, ⟨hreach1, hsz1, hrb1, fun p a b c => (hpkcells p a b c).1⟩, mf', hpda1, ?_⟩
+  refine ⟨hfound, hcct1, hpk1, ⟨hreach1, hsz1, hrb1, fun p a b c => (hpkcells p a b c).1⟩, hd, hpda1, hhd, hhds, ?_⟩
   intro st2 hst2
   have linv1 : LInv ct cct st1.ss rb := {
     rblen := inv.linv.rblen
@@ -317,15 +345,20 @@ theorem ginv_right_end (n : Nat) (ct : List Nat) (hct : CtOk n ct) {j : Nat} {pd
     hcct := g1, hrb := g2, cok := g3, nopk := g6, noaux := by rw [g7]; exact haux1, sssize := g4
     ent := by
       intro a ha
-      simp only [List.mem_cons] at ha
-      rcases ha with rfl | ha
-      · exact Or.inl ⟨by omega, hmf1⟩
+      rcases List.mem_append.mp ha with ha | ha
+      · exact Or.inl (hhd a ha)
       · rcases inv.ent a (by rw [hsplit]; simp [ha]) with h1 | h1
         · exact Or.inl h1
         · exact Or.inr ⟨h1.1, h1.2.1, by omega⟩
     sorted := by
-      have : (mf' :: below).filter (fun a => decide (0 ≤ a)) = below.filter (fun a => decide (0 ≤ a)) := by
-        simp [List.filter_cons]; omega
+      have : (hd ++ below).filter (fun a => decide (0 ≤ a)) = below.filter (fun a => decide (0 ≤ a)) := by
+        rw [List.filter_append]
+        have : hd.filter (fun a => decide (0 ≤ a)) = [] := by
+          rw [List.filter_eq_nil_iff]
+          intro a ha
+          have := hhd a ha
+          simp only [decide_eq_true_eq]; omega
+        rw [this, List.nil_append]
       rw [this]
       exact (List.pairwise_cons.mp hsorted.2.1).2
     lefts := by
@@ -341,12 +374,11 @@ theorem ginv_right_end (n : Nat) (ct : List Nat) (hct : CtOk n ct) {j : Nat} {pd
       · exfalso
         have : p = cct.getD j 0 := by omega
         rw [this, hij] at h4; omega
-      · exact List.mem_cons_of_mem _ hm
+      · exact List.mem_append_right _ hm
     paired := by
       intro a ha h0a hne
-      simp only [List.mem_cons] at ha
-      rcases ha with rfl | ha
-      · omega
+      rcases List.mem_append.mp ha with ha | ha
+      · have := hhd a ha; omega
       · have hn := hnew a.toNat hne
         rw [hn.1] at hne ⊢
         have hold := inv.paired a (by rw [hsplit]; simp [ha]) h0a hne
@@ -453,20 +485,34 @@ theorem ginv_right_end (n : Nat) (ct : List Nat) (hct : CtOk n ct) {j : Nat} {pd
     linv := g5 }
 
 /-- the main loop keeps the invariant to the end, whatever the table -/
-theorem c2wMainG (n : Nat) (ct : List Nat) (hct : CtOk n ct) :
+theorem nomark_push {simple : Bool} {pda : List Int} (j : Nat) (h : simple = true → ∀ a ∈ pda, 0 ≤ a) :
+    simple = true → ∀ a ∈ (j : Int) :: pda, 0 ≤ a := by
+  intro hs a ha
+  simp only [List.mem_cons] at ha
+  rcases ha with rfl | ha
+  · omega
+  · exact h hs a ha
+
+theorem nomark_next {simple : Bool} {above below hd : List Int} {x : Int} (h : simple = true → ∀ a ∈ above ++ x :: below, 0 ≤ a)
+    (hhd : simple = true → hd = []) : simple = true → ∀ a ∈ hd ++ below, 0 ≤ a := by
+  intro hs a ha
+  rw [hhd hs, List.nil_append] at ha
+  exact h hs a (by simp [ha])
+
+theorem c2wMainG (simple : Bool) (n : Nat) (ct : List Nat) (hct : CtOk n ct) :
     ∀ (fuel j : Nat) (pda : List Int) (st st' : C2W) (cct : List Nat) (rb : List Int),
-      n + 1 ≤ j + fuel → j ≤ n + 1 → 1 ≤ j → GInv n ct j pda st cct rb →
-      c2wMain false ct.toArray n fuel j pda st = .ok st' → ∃ pda' cct' rb', GInv n ct (n+1) pda' st' cct' rb' := by
+      n + 1 ≤ j + fuel → j ≤ n + 1 → 1 ≤ j → GInv n ct j pda st cct rb → (simple = true → ∀ a ∈ pda, 0 ≤ a) →
+      c2wMain simple ct.toArray n fuel j pda st = .ok st' → ∃ pda' cct' rb', GInv n ct (n+1) pda' st' cct' rb' := by
   intro fuel
   induction fuel with
   | zero =>
-    intro j pda st st' cct rb hf hju _ inv h
+    intro j pda st st' cct rb hf hju _ inv _ h
     simp only [c2wMain] at h
     injection h with h; subst h
     have : j = n + 1 := by omega
     subst this; exact ⟨pda, cct, rb, inv⟩
   | succ fuel ih =>
-    intro j pda st st' cct rb hf hju hj1 inv h
+    intro j pda st st' cct rb hf hju hj1 inv hnm h
     unfold c2wMain at h
     by_cases hend : j > n
     · rw [if_pos hend] at h
@@ -480,18 +526,18 @@ theorem c2wMainG (n : Nat) (ct : List Nat) (hct : CtOk n ct) :
     simp only [Int.toNat_natCast] at h
     by_cases h0 : cct.getD j 0 = 0
     · simp only [h0, beq_self_eq_true, if_true] at h
-      exact ih (j+1) _ st st' cct rb (by omega) (by omega) (by omega) (ginv_push hct inv hj1 (Or.inl h0)) h
+      exact ih (j+1) _ st st' cct rb (by omega) (by omega) (by omega) (ginv_push hct inv hj1 (Or.inl h0)) (nomark_push j hnm) h
     · have hb : (cct.getD j 0 == 0) = false := by rw [beq_eq_false_iff_ne]; exact h0
       simp only [hb, Bool.false_eq_true, if_false] at h
       by_cases hleft : j < cct.getD j 0
       · rw [if_pos hleft] at h
-        exact ih (j+1) _ st st' cct rb (by omega) (by omega) (by omega) (ginv_push hct inv hj1 (Or.inr hleft)) h
+        exact ih (j+1) _ st st' cct rb (by omega) (by omega) (by omega) (ginv_push hct inv hj1 (Or.inr hleft)) (nomark_push j hnm) h
       · rw [if_neg hleft] at h
-        obtain ⟨above, below, _, _, _, _, hstep⟩ := ginv_right_end n ct hct inv hj1 hjn h0 hleft
+        obtain ⟨above, below, hsplit, _, _, _, hstep⟩ := ginv_right_end simple n ct hct inv hnm hj1 hjn h0 hleft
         split at h
         · cases h
         · rename_i res hres
-          obtain ⟨hfound, hcct1, hpk1, _, mf', hpda1, hnext⟩ := hstep res hres
+          obtain ⟨hfound, hcct1, hpk1, _, hd, hpda1, _, hhds, hnext⟩ := hstep res hres
           obtain ⟨found, pda1, st1⟩ := res
           simp only at hfound hcct1 hpk1 hpda1 hnext h
           subst hfound hpda1
@@ -516,12 +562,43 @@ theorem c2wMainG (n : Nat) (ct : List Nat) (hct : CtOk n ct) :
                 simp only [Int.toNat_natCast] at hst2
                 exact Or.inr hst2
             obtain ⟨cct', rb', inv'⟩ := hnext st2 hdis
-            exact ih (j+1) (mf' :: below) st2 st' cct' rb' (by omega) (by omega) (by omega) inv' h
+            exact ih (j+1) (hd ++ below) st2 st' cct' rb' (by omega) (by omega) (by omega) inv' (nomark_next (hsplit ▸ hnm) hhds) h
 
 /-- `esl_ct2wuss` on ANY symmetric pair table: when it returns `eslOK` the string is a class-nested labelling -/
-theorem ct2wuss_class_labels (n : Nat) (ct : List Nat) (hct : CtOk n ct) (ss : Bytes) (h : ct2wuss ct = .ok ss) :
+theorem ginv_init (simple : Bool) (n : Nat) (ct : List Nat) (hct : CtOk n ct) :
+    GInv n ct 1 [] { ss := Array.replicate n (if simple = true then (0x2e : UInt8) else 0x3a), cct := ct.toArray,
+                     rb := Array.replicate 26 (-1), auxpk := [], auxss := [], reached := 0 } ct (List.replicate 26 (-1)) := by
+  have hl1 : ct.length = n + 1 := hct.1
+  have hrbrep : (Array.replicate 26 (-1 : Int)) = (List.replicate 26 (-1 : Int)).toArray := by
+    apply Array.ext'; simp
+  exact {
+    hcct := rfl, hrb := hrbrep
+    cok := ⟨hl1, fun p => Or.inl rfl, fun p hp => by
+      have h1' := hct.2 p hp
+      constructor
+      · intro e; exact absurd e hp
+      · intro e; rw [h1'.2.2.2.2.1] at e; omega⟩
+    nopk := rfl, noaux := rfl, sssize := by simp
+    ent := by intro a ha; simp at ha
+    sorted := by simp
+    lefts := by intro p h1 h2; omega
+    paired := by intro a ha; simp at ha
+    l1 := by
+      intro q hq _
+      simp only [ssAt, Array.toList_replicate, List.getD_eq_getElem?_getD, List.getElem?_replicate, hq, if_true,
+                 Option.getD_some]
+      cases simple <;> decide
+    l2 := by intro j0 h1 h2; omega
+    bn := by intro j0 i' h1 h2; omega
+    linv := {
+      rblen := by simp
+      lab := by intro p hp1 hp2 hp3; omega
+      non := by intro p p' hp1 hp2 hp3; omega } }
+
+theorem ct2wussGen_class_labels (simple : Bool) (n : Nat) (ct : List Nat) (hct : CtOk n ct) (ss : Bytes)
+    (h : ct2wussGen simple ct = .ok ss) :
     ss.length = n ∧ ClassLabels ct ss ∧ ClassNested ct ss := by
-  unfold ct2wuss ct2wussGen at h
+  unfold ct2wussGen at h
   simp only at h
   have hl1 : ct.length = n + 1 := hct.1
   have hn1 : ct.length - 1 = n := by omega
@@ -532,33 +609,8 @@ theorem ct2wuss_class_labels (n : Nat) (ct : List Nat) (hct : CtOk n ct) (ss : B
     split at h
     · cases h
     · injection h with h; subst h
-      have hrbrep : (Array.replicate 26 (-1 : Int)) = (List.replicate 26 (-1 : Int)).toArray := by
-        apply Array.ext'; simp
-      have hinit : GInv n ct 1 [] { ss := Array.replicate n (0x3a : UInt8), cct := ct.toArray, rb := Array.replicate 26 (-1),
-                                    auxpk := [], auxss := [], reached := 0 } ct (List.replicate 26 (-1)) := {
-        hcct := rfl, hrb := hrbrep
-        cok := ⟨hl1, fun p => Or.inl rfl, fun p hp => by
-          have h1' := hct.2 p hp
-          constructor
-          · intro e; exact absurd e hp
-          · intro e; rw [h1'.2.2.2.2.1] at e; omega⟩
-        nopk := rfl, noaux := rfl, sssize := by simp
-        ent := by intro a ha; simp at ha
-        sorted := by simp
-        lefts := by intro p h1 h2; omega
-        paired := by intro a ha; simp at ha
-        l1 := by
-          intro q hq _
-          simp only [ssAt, Array.toList_replicate, List.getD_eq_getElem?_getD, List.getElem?_replicate, hq, if_true,
-                     Option.getD_some]
-          decide
-        l2 := by intro j0 h1 h2; omega
-        bn := by intro j0 i' h1 h2; omega
-        linv := {
-          rblen := by simp
-          lab := by intro p hp1 hp2 hp3; omega
-          non := by intro p p' hp1 hp2 hp3; omega } }
-      obtain ⟨pda', cct', rb', inv⟩ := c2wMainG n ct hct (n+1) 1 [] _ st ct _ (by omega) (by omega) (Nat.le_refl _) hinit hst
+      obtain ⟨pda', cct', rb', inv⟩ := c2wMainG simple n ct hct (n+1) 1 [] _ st ct _ (by omega) (by omega) (Nat.le_refl _)
+        (ginv_init simple n ct hct) (fun _ a ha => by simp at ha) hst
       have hlen : st.ss.toList.length = n := by simp [inv.sssize]
       refine ⟨hlen, ?_, ?_⟩
       · -- every position carries the right kind of symbol
@@ -627,9 +679,17 @@ theorem ct2wuss_class_labels (n : Nat) (ct : List Nat) (hct : CtOk n ct) (ss : B
 
 /-- PSEUDOKNOTTED ROUND TRIP: whenever `esl_ct2wuss` converts a symmetric pair table — crossing pairs, i.e. pseudoknots,
     allowed — `esl_wuss2ct` of the result is that table again -/
-theorem pk_roundtrip' (n : Nat) (ct : List Nat) (hct : CtOk n ct) (ss : Bytes) (h : ct2wuss ct = .ok ss) :
-    wuss2ct ss = some ct := by
-  obtain ⟨hlen, hl, hcn⟩ := ct2wuss_class_labels n ct hct ss h
+theorem pk_roundtripGen (simple : Bool) (n : Nat) (ct : List Nat) (hct : CtOk n ct) (ss : Bytes)
+    (h : ct2wussGen simple ct = .ok ss) : wuss2ct ss = some ct := by
+  obtain ⟨hlen, hl, hcn⟩ := ct2wussGen_class_labels simple n ct hct ss h
   exact wuss2ct_of_class_labels' ss ct (by rw [hlen]; exact hct) hcn hl
+
+theorem ct2wuss_class_labels (n : Nat) (ct : List Nat) (hct : CtOk n ct) (ss : Bytes) (h : ct2wuss ct = .ok ss) :
+    ss.length = n ∧ ClassLabels ct ss ∧ ClassNested ct ss :=
+  ct2wussGen_class_labels false n ct hct ss h
+
+theorem pk_roundtrip' (n : Nat) (ct : List Nat) (hct : CtOk n ct) (ss : Bytes) (h : ct2wuss ct = .ok ss) :
+    wuss2ct ss = some ct :=
+  pk_roundtripGen false n ct hct ss h
 
 end EaselModel.Msa
